@@ -790,6 +790,55 @@ pub fn run(tier: Tier) -> i32 {
             }
         }
     }
+    // free-text slots filled with FRAGMENTS of the grammar's own keywords: every substring of name,
+    // value, code, moves, fen, later (and the capitalised forms) as a word of an option name, an option
+    // value, a registration name or code — first, middle, last and only word. A keyword ends a
+    // free-text field only as a whole token.
+    {
+        let mut frags: Vec<String> = Vec::new();
+        for kw in ["name", "value", "code", "moves", "fen", "later", "startpos"] {
+            let c: Vec<char> = kw.chars().collect();
+            for a in 0..c.len() {
+                for b in a + 1..=c.len() {
+                    let f: String = c[a..b].iter().collect();
+                    let mut cap = f.clone();
+                    if let Some(first) = cap.get_mut(0..1) {
+                        first.make_ascii_uppercase();
+                    }
+                    for x in [f, cap] {
+                        if !frags.contains(&x) {
+                            frags.push(x);
+                        }
+                    }
+                }
+            }
+        }
+        for w in &frags {
+            for l in [
+                format!("setoption name {}", w),
+                format!("setoption name Foo {}", w),
+                format!("setoption name {} Foo", w),
+                format!("setoption name Foo {} Bar value 1", w),
+                format!("setoption name Foo {} value 1", w),
+                format!("setoption name {} Foo value 1", w),
+                format!("setoption name Foo value {}", w),
+                format!("setoption name Foo value x {}", w),
+                format!("setoption name Foo value {} x", w),
+                format!("setoption name {} value {}", w, w),
+                format!("register name {} code 1", w),
+                format!("register name Foo {} code 1", w),
+                format!("register name {} Foo code 1", w),
+                format!("register name Foo {} Bar code 1", w),
+                format!("register name Foo code {}", w),
+                format!("register name Foo code 1 {}", w),
+                format!("register name Foo code {} 1", w),
+                format!("position fen rnbqkbnr/pppppppp/8/8/8/8/PPPPPPPP/RNBQKBNR w KQkq - 0 1 {} moves e2e4", w),
+                format!("position fen {} moves e2e4", w),
+            ] {
+                push(l, &mut lines);
+            }
+        }
+    }
     let n_sweep = lines.len() - n_before_sweep;
     let stats: [AtomicU64; 3] = Default::default();
     let t0 = Instant::now();
